@@ -241,43 +241,109 @@ Proof.
   apply py_slice_from_app.
 Qed.
 
+(* is_available as the code runs it: each queried name against `order` of the reserved names *)
+Fixpoint is_available_ord (order : list name -> list name) (assigned queries : list name) : res bool :=
+  match queries with
+  | [] => Ok true
+  | nm :: rest =>
+      let! c := check_reserved assigned nm (order (assigned ++ rest)) in
+      let! r := is_available_ord order assigned rest in
+      Ok (negb c && r)
+  end.
+
 Section Outer.
 Context {R : Type}.
 Variable order : list name -> list name.
-Hypothesis order_ok : forall l x, In x (order l) <-> In x l.
 Variable assigned : list name.
-Hypothesis assigned_ne : forall a, In a assigned -> a <> [].
 
 Lemma outer_loop (body : Z * name -> bool -> res (ctl bool R)) (names : list name) :
   (forall pre nm rest c, names = pre ++ nm :: rest ->
      body (py_len pre, nm) c =
      match check_reserved assigned nm (order (assigned ++ rest)) with
      | Ok b => Ok (Next (c || b)) | Err e => Err e end) ->
-  (forall q, In q names -> q <> []) ->
   forall c, for_each body (py_enumerate names) c =
-    match is_available assigned names with Ok b => Ok (Fell (c || negb b)) | Err e => Err e end.
+    match is_available_ord order assigned names with Ok b => Ok (Fell (c || negb b)) | Err e => Err e end.
 Proof.
-  intros Hb Hne. unfold py_enumerate.
+  intros Hb. unfold py_enumerate.
   assert (G : forall sfx pre c, names = pre ++ sfx ->
     for_each body (enumerate_from (py_len pre) sfx) c =
-    match is_available assigned sfx with Ok b => Ok (Fell (c || negb b)) | Err e => Err e end).
-  { induction sfx as [|nm rest IH]; intros pre c Hn; cbn [enumerate_from for_each is_available].
+    match is_available_ord order assigned sfx with Ok b => Ok (Fell (c || negb b)) | Err e => Err e end).
+  { induction sfx as [|nm rest IH]; intros pre c Hn; cbn [enumerate_from for_each is_available_ord].
     - rewrite orb_false_r. reflexivity.
     - rewrite (Hb pre nm rest c Hn).
-      assert (Hin : forall q, In q (nm :: rest) -> q <> []).
-      { intros q Hq. apply Hne. rewrite Hn. apply in_or_app. right. exact Hq. }
-      rewrite (check_reserved_order assigned nm (assigned ++ rest) (order (assigned ++ rest))).
-      + destruct (check_reserved assigned nm (assigned ++ rest)) as [b|e]; cbn [bind]; [|reflexivity].
-        rewrite <- py_len_app1 with (x := nm). rewrite IH by (rewrite <- app_assoc; exact Hn).
-        destruct (is_available assigned rest) as [b'|e]; cbn [bind]; [|reflexivity].
-        destruct c, b, b'; reflexivity.
-      + apply Hin. left. reflexivity.
-      + intros r Hr. apply in_app_or in Hr as [Hr|Hr]; [auto|apply Hin; right; exact Hr].
-      + apply order_ok. }
+      destruct (check_reserved assigned nm (order (assigned ++ rest))) as [b|e]; cbn [bind]; [|reflexivity].
+      rewrite <- py_len_app1 with (x := nm). rewrite IH by (rewrite <- app_assoc; exact Hn).
+      destruct (is_available_ord order assigned rest) as [b'|e]; cbn [bind]; [|reflexivity].
+      destruct c, b, b'; reflexivity. }
   intros c. exact (G names [] c eq_refl).
 Qed.
 
 End Outer.
+
+(* with non-empty names everywhere the order does not matter at all *)
+Lemma is_available_ord_eq order assigned : (forall l x, In x (order l) <-> In x l) ->
+  (forall a, In a assigned -> a <> []) -> forall queries, (forall q, In q queries -> q <> []) ->
+  is_available_ord order assigned queries = is_available assigned queries.
+Proof.
+  intros Hord Ha. induction queries as [|nm rest IH]; intros Hq; cbn [is_available_ord is_available]; [reflexivity|].
+  match goal with |- context [check_reserved assigned nm (order ?l)] =>
+    rewrite (check_reserved_order assigned nm l (order l)) end.
+  - rewrite IH by (intros; apply Hq; right; assumption). reflexivity.
+  - apply Hq. left. reflexivity.
+  - intros r Hr. apply in_app_or in Hr as [Hr|Hr]; [auto|apply Hq; right; exact Hr].
+  - apply Hord.
+Qed.
+
+(* without any assumption on the assigned names (an empty tuple among them makes `reserved_name[part_idx]` raise
+   IndexError): same result, or an exception on both sides - which one depends on the order *)
+Definition res_sim {A} (a b : res A) : Prop :=
+  match a, b with Ok x, Ok y => x = y | Err _, Err _ => True | _, _ => False end.
+
+Lemma res_sim_refl {A} (a : res A) : res_sim a a.
+Proof. destruct a; cbn; auto. Qed.
+
+Lemma res_sim_bind {A B} (a a' : res A) (f f' : A -> res B) :
+  res_sim a a' -> (forall x, res_sim (f x) (f' x)) -> res_sim (bind a f) (bind a' f').
+Proof. destruct a as [x|e], a' as [x'|e']; cbn; try tauto. intros -> H. apply H. Qed.
+
+Definition cr_bad (assigned : list name) (nm r : name) : bool :=
+  match r with [] => true | _ => name_conflictb nm r && negb (name_in r assigned) end.
+
+Lemma check_reserved_char2 assigned nm : nm <> [] -> forall l,
+  if existsb (cr_bad assigned nm) l then exists e, check_reserved assigned nm l = Err e
+  else check_reserved assigned nm l = Ok (existsb (name_conflictb nm) l).
+Proof.
+  intros Hn. induction l as [|r l IH]; cbn [check_reserved existsb]; [reflexivity|].
+  destruct r as [|p r].
+  - cbn [cr_bad orb]. destruct nm as [|q nm]; [congruence|]. unfold conflicts. cbn [conflict_loop bind]. eauto.
+  - rewrite conflicts_spec by (auto; discriminate). cbn [bind]. cbn [cr_bad].
+    destruct (name_conflictb nm (p :: r)); cbn [andb orb].
+    + destruct (name_in (p :: r) assigned); cbn [negb orb]; [|eauto].
+      destruct (existsb (cr_bad assigned nm) l).
+      * destruct IH as (e & ->). cbn [bind]. eauto.
+      * rewrite IH. reflexivity.
+    + exact IH.
+Qed.
+
+Lemma check_reserved_sim assigned nm l l' : nm <> [] -> (forall x, In x l' <-> In x l) ->
+  res_sim (check_reserved assigned nm l') (check_reserved assigned nm l).
+Proof.
+  intros Hn Hsame. pose proof (check_reserved_char2 assigned nm Hn l) as H. pose proof (check_reserved_char2 assigned nm Hn l') as H'.
+  rewrite (existsb_same _ l l' Hsame) in H'.
+  destruct (existsb (cr_bad assigned nm) l).
+  - destruct H as (e & ->), H' as (e' & ->). exact I.
+  - rewrite H, H'. cbn. apply existsb_same. exact Hsame.
+Qed.
+
+Lemma is_available_ord_sim order assigned : (forall l x, In x (order l) <-> In x l) ->
+  forall queries, (forall q, In q queries -> q <> []) ->
+  res_sim (is_available_ord order assigned queries) (is_available assigned queries).
+Proof.
+  intros Hord. induction queries as [|nm rest IH]; intros Hq; cbn [is_available_ord is_available]; [reflexivity|].
+  apply res_sim_bind.
+  - apply check_reserved_sim; [apply Hq; left; reflexivity|apply Hord].
+  - intros c. apply res_sim_bind; [apply IH; intros; apply Hq; right; assumption|]. intros r. reflexivity.
+Qed.
 
 (* ------------------------------------------------------------------ assign / extend: the dict grows by exactly the new keys *)
 
